@@ -21,7 +21,7 @@
    MapImpl (map.rs) = the same table used with insert := insert_or_replace k (fun _ => true) v only; its
    specification is the ordinary finite map `fm_*` at the end of this file (at most one pair per key,
    value k = the value inserted last). *)
-From Coq Require Import List Bool Permutation.
+From Coq Require Import List Bool Permutation NArith.
 Import ListNotations.
 From Agdb Require Import OpenMap.
 
@@ -121,3 +121,50 @@ Arguments ObsUnit {V}.
 Arguments ObsReplaced {V} r.
 Arguments ObsValue {V} r.
 Arguments ObsValues {V} l.
+
+(* ---------------- the table's side: what a history of OpenMap.v operations shows ---------------- *)
+Section Observed.
+  Variables K V : Type.
+  Variable keqb : K -> K -> bool.
+  Variable veqb : V -> V -> bool.
+  Variable h : K -> N.
+  Variable mincap : nat.
+  Variable rv : om_revision.
+
+  (* `step` of OpenMap.v (probe fuel = capacity) together with the value returned to the caller *)
+  Definition step_obs (m : omap K V) (o : op K V) : outcome (omap K V * obs V) :=
+    match o with
+    | OInsert _ _ k v =>
+        match insert K V h mincap m k v with Done m' => Done (m', ObsUnit) | OutOfFuel => OutOfFuel end
+    | OInsertOrReplace _ _ k p v =>
+        match insert_or_replace K V keqb h mincap rv m k p v with
+        | Done (m', r) => Done (m', ObsReplaced r) | OutOfFuel => OutOfFuel end
+    | ORemoveKey _ _ k =>
+        match remove_key K V keqb h mincap rv m k with Done m' => Done (m', ObsUnit) | OutOfFuel => OutOfFuel end
+    | ORemoveValue _ _ k v =>
+        match remove_value K V keqb veqb h mincap rv m k v with Done m' => Done (m', ObsUnit) | OutOfFuel => OutOfFuel end
+    | OReserve _ _ c =>
+        match reserve K V h mincap m c with Done m' => Done (m', ObsUnit) | OutOfFuel => OutOfFuel end
+    | OValue _ _ k =>
+        match value K V keqb h m k with Done r => Done (m, ObsValue r) | OutOfFuel => OutOfFuel end
+    | OValues _ _ k =>
+        match values K V keqb h rv m k with Done l => Done (m, ObsValues l) | OutOfFuel => OutOfFuel end
+    end.
+
+  Fixpoint run_obs (m : omap K V) (ops : list (op K V)) : outcome (omap K V * list (obs V)) :=
+    match ops with
+    | [] => Done (m, [])
+    | o :: r =>
+        match step_obs m o with
+        | OutOfFuel => OutOfFuel
+        | Done (m1, ob) =>
+            match run_obs m1 r with Done (m2, obl) => Done (m2, ob :: obl) | OutOfFuel => OutOfFuel end
+        end
+    end.
+
+  (* contains_value / values_count as the code computes them from iter_key *)
+  Definition contains_value (m : omap K V) (k : K) (v : V) : outcome bool :=
+    match values K V keqb h rv m k with Done l => Done (existsb (fun w => veqb w v) l) | OutOfFuel => OutOfFuel end.
+  Definition values_count (m : omap K V) (k : K) : outcome nat :=
+    match values K V keqb h rv m k with Done l => Done (length l) | OutOfFuel => OutOfFuel end.
+End Observed.
